@@ -193,7 +193,7 @@ pub fn run(tier: &str, seed: u64, out: &Path) -> i32 {
         // it is measured in sweep mode, see corpus/c09_fixdiff.txt)
         chosen.extend(clean.iter().filter(|e| e.base.ends_with("|base")).map(|e| (*e).clone()));
         let rest: Vec<&&Elem> = clean.iter().filter(|e| !e.base.ends_with("|base")).collect();
-        for _ in 0..(if thorough { 150_000usize } else { 8000 }).min(rest.len()) {
+        for _ in 0..(if thorough { 150_000usize } else { 20000 }).min(rest.len()) {
             chosen.push((**rng.pick(&rest)).clone());
         }
         // boundary family: the widths next to the lengths of the lines of the item's own output at max_width 200
@@ -207,7 +207,7 @@ pub fn run(tier: &str, seed: u64, out: &Path) -> i32 {
             }
         }
         o.count_n("bw:planned (item, width) pairs", pairs.len() as u64);
-        let take: Vec<(usize, usize)> = if thorough { pairs } else { (0..8000usize.min(pairs.len())).map(|_| *rng.pick(&pairs)).collect() };
+        let take: Vec<(usize, usize)> = if thorough { pairs } else { (0..12000usize.min(pairs.len())).map(|_| *rng.pick(&pairs)).collect() };
         for (i, w) in take {
             for e in boundary_elems(&its[i], w) {
                 if listed.contains(&e.id) {
@@ -405,7 +405,7 @@ pub fn run(tier: &str, seed: u64, out: &Path) -> i32 {
         }
     }
     o.count_n("cases_where_2021_and_2024_differ", nontrivial);
-    o.notes.push("fixed universe: C02's universe (fixtures x {base, 7 widths, every option single, 3 name-seeded re-layouts}) and the boundary universe (items x max_width 20..200), each element under the four released style editions; the elements on which the working tree differs from the pinned release because of the repairs made during this audit are enumerated in corpus/c09_fixdiff.txt and run as probe c09-fixdiff; quick runs every base element, 8000 seeded other elements and 8000 seeded boundary pairs; thorough every base element, 150000 seeded other elements and every planned boundary pair (about 20000); plus generated import groups".into());
+    o.notes.push("fixed universe: C02's universe (fixtures x {base, 7 widths, every option single, 3 name-seeded re-layouts}) and the boundary universe (items x max_width 20..200), each element under the four released style editions; the elements on which the working tree differs from the pinned release because of the repairs made during this audit are enumerated in corpus/c09_fixdiff.txt and run as probe c09-fixdiff; quick runs every base element, 20000 seeded other elements and 12000 seeded boundary pairs; thorough every base element, 150000 seeded other elements and every planned boundary pair (about 20000); plus generated import groups".into());
     let evals = o.distribution.get("b:compared").copied().unwrap_or(0) + o.distribution.get("a:compared").copied().unwrap_or(0) + o.distribution.get("bw:compared").copied().unwrap_or(0);
     o.count_n("evaluations_direct", evals);
     o.direct_evals = evals;
